@@ -74,3 +74,27 @@ package signedexchange
 //@   ensures[at-least-the-fixed-fields] result == nil ==> accepted(w) >= old(accepted(w)) + 8 + 3 + 3 + len(e.SignatureHeaderValue) + len(e.Payload)
 //@   ensures accepted(w) >= old(accepted(w)) && accepted(w) - wrapped(w) == old(accepted(w) - wrapped(w))
 //@   assigns accepted(w), failed(w), content(w), wrapped(w), all(spos)
+
+// ---- acceptance policy (C09, C01) ---------------------------------------------
+// unixOf(t): the mathematical Unix second of an instant.
+//@ def unixOf(t time.Time) mathint = tsec(t) - 62135596800
+
+// verifyTimestamps accepts exactly when the lifetime is at most 7 days and
+// date <= t <= expires (to the nanosecond).
+//@ func verifyTimestamps
+//@   props C09 C01
+//@   requires sig != nil
+//@   ensures[accept-iff-in-window] result == nil <==> (sig.Expires - sig.Date <= 604800 && sig.Date <= unixOf(verificationTime) && (unixOf(verificationTime) < sig.Expires || (unixOf(verificationTime) == sig.Expires && tnsec(verificationTime) == 0)))
+//@   assigns nothing
+
+// Package initialisation builds the two banned-header sets. Its
+// postcondition is what every other function may assume about them (they are
+// never written afterwards: whole-repository scan, C18).
+//@ func init#1
+//@   props C09 C18
+//@   ensures[stateful-set] statefulRequestHeadersSet != nil && (forall s string :: has(statefulRequestHeadersSet, s) <==> (s == "authorization" || s == "cookie" || s == "cookie2" || s == "proxy-authorization" || s == "sec-websocket-key"))
+//@   ensures[uncached-set] uncachedHeadersSet != nil && (forall s string :: has(uncachedHeadersSet, s) <==> (s == "connection" || s == "keep-alive" || s == "proxy-connection" || s == "trailer" || s == "transfer-encoding" || s == "upgrade" || s == "authentication-control" || s == "authentication-info" || s == "clear-site-data" || s == "optional-www-authenticate" || s == "proxy-authenticate" || s == "proxy-authentication-info" || s == "public-key-pins" || s == "sec-websocket-accept" || s == "set-cookie" || s == "set-cookie2" || s == "setprofile" || s == "strict-transport-security" || s == "www-authenticate"))
+//@   loop 0:
+//@     invariant statefulRequestHeadersSet != nil && fresh(statefulRequestHeadersSet) && len(statefulRequestHeaders) == 5
+//@     invariant statefulRequestHeaders[0] == "authorization" && statefulRequestHeaders[1] == "cookie" && statefulRequestHeaders[2] == "cookie2" && statefulRequestHeaders[3] == "proxy-authorization" && statefulRequestHeaders[4] == "sec-websocket-key"
+//@     invariant forall s string :: has(statefulRequestHeadersSet, s) <==> ((rangeindex >= 0 && s == "authorization") || (rangeindex >= 1 && s == "cookie") || (rangeindex >= 2 && s == "cookie2") || (rangeindex >= 3 && s == "proxy-authorization") || (rangeindex >= 4 && s == "sec-websocket-key"))
